@@ -374,6 +374,24 @@ func builtinModels() map[string]modelFn {
 		e.finish(st, c, e.ctx.Bin(OpSub, e.ctx.BV(64, uint64(e.clock)), t.slots[1].(*Term)))
 	}
 
+	// time.Parse*: opaque, succeeds or fails nondeterministically (formatting/parsing of dates is
+	// outside every claim; only the control flow around it is explored)
+	timeParse := func(e *Engine, st *State, c *callCtx) {
+		ok := e.ctx.FreshVar("timeparse-ok", 0)
+		wall := e.ctx.FreshVar("time-wall", 64)
+		ext := e.ctx.FreshVar("time-ext", 64)
+		e.fork(st, []Alt{
+			{ok, func(s *State) {
+				e.finish(s, c, TupleVal{AggVal{[]Value{wall, ext, PtrVal{}}}, IfaceVal{}})
+			}},
+			{e.ctx.Not(ok), func(s *State) {
+				e.finish(s, c, TupleVal{AggVal{[]Value{e.ctx.BV(64, 0), e.ctx.BV(64, 0), PtrVal{}}}, e.makeError(s, "<time.Parse error>")})
+			}},
+		})
+	}
+	m["time.Parse"] = timeParse
+	m["time.ParseInLocation"] = timeParse
+
 	// ----- mcache -----
 	m["github.com/bytedance/gopkg/lang/mcache.Malloc"] = func(e *Engine, st *State, c *callCtx) {
 		n := e.argInt(st, c.args[0], "mcache.Malloc size")
